@@ -37,6 +37,8 @@ TS_OUT = [0, 1, 0, 1]
 
 def models(tier, seed):
     return [dict(name='MC_Persist', spec='MC_Persist', cfg='MC_Persist.cfg'),
+            dict(name='MC_Persist only the block that stopped the simulation is excluded (sharpness)',
+                 spec='MC_Persist', cfg='MC_Persist_firstonly.cfg', expect_violation='NoWriteAfterHandlerError'),
             dict(name='MC_Persist failed block still saved (sharpness)', spec='MC_Persist',
                  cfg='MC_Persist_saveonerror.cfg', expect_violation='NoWriteAfterHandlerError')]
 
@@ -71,7 +73,10 @@ def stimuli(tier, seed, ctx):
                     'fail_start': rnd.random() < 0.08, 'restarts': restarts,
                     # the storage holds entries of an earlier run; the simulation may be aborted in
                     # the first loop iteration after start(), before anything is initialised
-                    'preseed': rnd.random() < 0.5, 'early_abort': rnd.random() < 0.12})
+                    'preseed': rnd.random() < 0.5, 'early_abort': rnd.random() < 0.12,
+                    # a handler fails while the simulation is already stopping (stop requested,
+                    # clean-up not yet run)
+                    'late_fail': rnd.randint(1, n) if rnd.random() < 0.2 else 0})
     return out
 
 
@@ -297,6 +302,23 @@ def execute(stim):
                     delay = t0 + stim['stop_at'] * TICK - loop.time()
                     if delay > 0:
                         await asyncio.sleep(delay)
+                lf = stim.get('late_fail')
+                if lf and circuit.error is None and kinds[lf - 1] in ('counter', 'fsm'):
+                    # the stop request as made by shutdown(); an internal event still reaches a block
+                    circuit.abort(asyncio.CancelledError('shutdown'))
+                    rec('abort')
+                    flag['driver'] = True
+                    try:
+                        if kinds[lf - 1] == 'counter':
+                            blks[lf - 1].event('put', value='bad')
+                        else:
+                            blks[lf - 1].event('e5', boom=1)
+                        outcome = 'ok'
+                    except Exception:
+                        outcome = 'fatal'
+                    finally:
+                        flag['driver'] = False
+                    rec('event', b=lf, outcome=outcome, live=live())
                 state['running'] = False
                 before = live()
                 try:
